@@ -178,6 +178,7 @@ def run(prog: Program, ctx: Ctx) -> None:  # noqa: PLR0912,PLR0915
         ctx.ob("R3", f"required|default={default!r}|annotation={ann}|{kind}", got == (default is None), f"Parameter(default={default!r}).required = {got}", where(prog.lookup_method(pcls, 'required')[0]))
     # (what handle_function passes to Function(...), and the overload / setter / deleter handling, are decided on behaviour by the definition table R5)
     _definition_table(prog, ctx)
+    _future_annotations_table(prog, ctx)
 
 
 DEFS = {
@@ -326,6 +327,40 @@ def _definition_table(prog: Program, ctx: Ctx, rule: str = "R5") -> None:
                f"`{d2}` defined after `{d1}`: {got.get('second') if isinstance(got, dict) else got}; alone: {want2}" + ("" if ok else f" (first: {got.get('first') if isinstance(got, dict) else got}, alone {want1})"),
                where(vf))
     ctx.expect_min(rule, n, 60)
+
+
+def _future_annotations_table(prog: Program, ctx: Ctx) -> None:
+    """R6: whether a string annotation is read as a forward reference (parsed) or kept as the text CPython keeps under `from __future__ import annotations`
+    is a fact about the module object being visited - not about its file path, nor about what was loaded before it in the same process."""
+    ctx.rule("R6", "a string annotation is parsed exactly when the module it stands in does not import annotations from __future__ - also when another "
+                   "module with the same file path (the file edited and loaded again) was handled just before, either way round")
+    M = "_griffe.models"
+    it = Interp(prog, max_depth=60, max_steps=400_000)
+    gex = prog.function("_griffe.expressions.get_expression")
+
+    def module(future: bool) -> Obj:
+        m_ = it._construct(prog.cls(f"{M}.Module"), ["m"], {"filepath": PurePosixPath("/s/m.py")})
+        if future:
+            it.call(prog.lookup_method(m_.cls, "set_member")[0], m_, "annotations", it._construct(prog.cls(f"{M}.Alias"), ["annotations", "__future__.annotations"], {}))
+        return m_
+
+    n = 0
+    for history in itertools.product((False, True), repeat=2):
+        # fresh evaluator state for module-level variables of griffe: each history is one process
+        it = Interp(prog, max_depth=60, max_steps=400_000)
+        seen = []
+        for future in history:
+            it.steps = 0
+            try:
+                e = it.call(gex, ast.parse("'int'", mode="eval").body, parent=module(future))
+                seen.append("parsed" if isinstance(e, Obj) and e.cls is not None and e.cls.name == "ExprName" else f"kept as {e!r}")
+            except Raised as r:
+                seen.append(f"raises {r.exc}")
+        want = ["kept as \"'int'\"" if f_ else "parsed" for f_ in history]
+        n += 1
+        ctx.ob("R6", f"future-annotations|{' then '.join('with' if f_ else 'without' for f_ in history)}", seen == want,
+               f"/s/m.py loaded {' then '.join(('with' if f_ else 'without') + ' the future import' for f_ in history)}: the annotation `'int'` is {seen}; CPython's view: {want}", where(gex))
+    ctx.expect_min("R6", n, 4)
 
 
 def _shape_class(text: str) -> str:
